@@ -922,13 +922,23 @@ def _tab(g, cfg=DEF_CFG):
     return lab, adj
 
 
+def _eq_repr(v):
+    """repr of a value up to Python's == between numbers (1 == 1.0 == True), recursively in tuples / lists."""
+    if isinstance(v, (tuple, list)):
+        return "(" + ",".join(_eq_repr(x) for x in v) + ")"
+    if isinstance(v, (bool, int, float)):
+        return repr(float(v))
+    return repr(v)
+
+
 def ref_iso(g1, g2, labelled=True, cfg=DEF_CFG):
     """Isomorphism on the configured node labels (element, charge) and bond order by back-tracking over bijections (no networkx)."""
     (l1, a1), (l2, a2) = _tab(g1, cfg), _tab(g2, cfg)
     if len(l1) != len(l2) or len(a1) != len(a2):
         return False
-    if labelled and (sorted(map(repr, l1.values())) != sorted(map(repr, l2.values()))
-                     or sorted(map(repr, a1.values())) != sorted(map(repr, a2.values()))):
+    # quick multiset pre-check, ==-compatible: 0, 0.0 and False are one value for generic_node_match's eq (audit round 5)
+    if labelled and (sorted(map(_eq_repr, l1.values())) != sorted(map(_eq_repr, l2.values()))
+                     or sorted(map(_eq_repr, a1.values())) != sorted(map(_eq_repr, a2.values()))):
         return False
     d1, d2 = {}, {}
     for (u, _v) in a1:
@@ -1287,26 +1297,27 @@ def oracle(case):
                            {"names": ncfg["names"] if ncfg else [], "defaults": ncfg["defaults"] if ncfg else [],
                             "edge": ecfg["edge"] if ecfg else "__no_edge_matcher__"})
             if o is not want:
-                fails.append(dict(clause="isomorphism", detail="graph_isomorphism(%d, %d, %s) = %r, reference %r" % (op[1], op[2], op[3], o, want)))
+                fails.append(dict(clause="contract:isomorphism", detail="graph_isomorphism(%d, %d, %s) = %r, reference %r" % (op[1], op[2], op[3], o, want)))
             return
         if k == "batch_dicts":
             bs = op[2]
             want = "ValueError" if bs < 1 else [list(op[1][i:i + bs]) for i in range(0, len(op[1]), bs)]
             if o != want:
-                fails.append(dict(clause="batches", detail="batch_dicts(%r, %r) = %r" % (op[1], bs, o)))
+                fails.append(dict(clause="contract:batches", detail="batch_dicts(%r, %r) = %r" % (op[1], bs, o)))
             return
         if k == "ctor":
             want = _contract_ctor(*op[1:6])
             if o != want:
-                fails.append(dict(clause="constructor", detail="%r -> %r, contract %r" % (op, o, want)))
+                fails.append(dict(clause="contract:constructor", detail="%r -> %r, contract %r" % (op, o, want)))
             return
         if k == "backends":
-            if o != ["nx"]:
-                fails.append(dict(clause="constructor", detail="available_backends() = %r without the mod package" % (o,)))
+            import importlib.util
+            if importlib.util.find_spec("mod") is None and o != ["nx"]:      # environment dependent: judged only without the optional package
+                fails.append(dict(clause="contract:constructor", detail="available_backends() = %r without the mod package" % (o,)))
             return
         if k == "fit" and op[2] is not None and op[2] < 1:
             if classes != "ValueError":
-                fails.append(dict(clause="batches", detail="fit with batch_size %r did not raise ValueError" % op[2]))
+                fails.append(dict(clause="contract:batches", detail="fit with batch_size %r did not raise ValueError" % op[2]))
             return
         idxs = [op[1]] if k == "lib_check" else list(op[1])
         if None in classes or len(classes) != len(idxs):
@@ -2421,6 +2432,35 @@ def gen_cases(tier, rng):
                 raw.append(["iso", 0, j, how] if rng2.random() < 0.5 else ["iso", j, 0, how])
         try:
             c["ops"] = _finalize(c, raw)
+            rest.append(c)
+        except ValueError:
+            pass
+    # audit round 5: numbers spelled differently -- charge 0 / 0.0, -1 / -1.0 (float charges are outside the model: oracle only) and
+    # bond order 1 / 1.0 / 2 / 2.0 (same half-units in the model): Python's == makes them one value
+    for t in range(16 if quick else 100):
+        base = rng2.sample(small_corpus, 2) if rng2.random() < 0.5 else rng2.sample([g for g in synth if g["edges"]], 3)
+        size = rng2.randint(4, 7)
+        items = _pool(rng2, base, size)
+        float_charges = t % 2 == 0
+        for it in items:
+            g = it["g"] = _copy(it["g"])
+            for _, a in g["nodes"]:
+                if float_charges and isinstance(a.get("charge"), int) and not isinstance(a.get("charge"), bool) and rng2.random() < 0.5:
+                    a["charge"] = float(a["charge"])
+            for _, _, a in g["edges"]:
+                o = a.get("order")
+                if isinstance(o, int) and not isinstance(o, bool) and rng2.random() < 0.5:
+                    a["order"] = float(o)
+                elif isinstance(o, list) and rng2.random() < 0.5:
+                    a["order"] = [float(x) for x in o]
+        _set_attrs(items, "none", True, rng2)
+        c = dict(kind="respelled-numeric", attr_mode="none", invariant=True, items=items, ops=[], shared=rng2.random() < 0.5,
+                 call=rng2.choice(["short", "kw"]))
+        order = list(range(size))
+        rng2.shuffle(order)
+        try:
+            c["ops"] = _finalize(c, [["gc_fit", order], ["fit", order, rng2.choice([None, 1, 2])], ["reset"], ["cluster", order[::-1]],
+                                     ["lib_check", order[0]]])
             rest.append(c)
         except ValueError:
             pass
